@@ -24,20 +24,30 @@ def run(tier):
         with open(os.path.join(C.SPEC, "MCContainers5.cfg"), "w") as f:
             f.write(txt)
         cfg_bfs = "MCContainers5.cfg"
-    recs, stats, text = C.tlc("MCContainers", cfg_bfs, {}, "c17_bfs", timeout=3000, mem="12g")
+    sin, sout = os.path.join(d, "seqs.ndjson"), os.path.join(d, "bad.ndjson")
+    # the BFS prints up to millions of sequences: they go straight to the file the replay reads (nothing is held in memory)
+    recs, stats, text = C.tlc("MCContainers", cfg_bfs, {}, "c17_bfs", timeout=3000, mem="12g", sink={"REPLAY": sin})
     if not C.tlc_ok(stats):
         raise C.ToolError("MCContainers (BFS) failed: %s" % stats["errors"][:3])
-    seqs = recs.get("REPLAY", [])
+    nseqs = stats["sink_counts"]["REPLAY"]
+    with open(sin, encoding="utf-8") as f:
+        sample_seq = json.loads(f.readline() or "{}")
     sim_s = 25 if tier == "quick" else 600
     recs2, stats2, text2 = C.tlc("MCContainers", "MCContainersSim.cfg", {}, "c17_sim", timeout=sim_s + 120, nworkers=1,
                                  extra=["-simulate", "num=100000000", "-depth", "201", "-seed", str(C.seed() + 1)], kill_after=sim_s)
     if not C.tlc_ok(stats2):
         raise C.ToolError("MCContainers (simulation) failed: %s" % stats2["errors"][:3])
     sims = recs2.get("REPLAY", [])
-    allseqs = seqs + sims
-    sin, sout = os.path.join(d, "seqs.ndjson"), os.path.join(d, "bad.ndjson")
-    C.write_ndjson(sin, allseqs)
-    p = subprocess.run([C.TSGV, "containers", sin, sout], stdout=subprocess.PIPE, stderr=subprocess.DEVNULL, text=True, timeout=3000)
+    with open(sin, "a", encoding="utf-8") as f:
+        for x in sims:
+            f.write(json.dumps(x, ensure_ascii=False) + "\n")
+    nall = nseqs + len(sims)
+    try:
+        p = subprocess.run([C.TSGV, "containers", sin, sout], stdout=subprocess.PIPE, stderr=subprocess.DEVNULL, text=True, timeout=3000)
+    except subprocess.TimeoutExpired:
+        raise C.ToolError("replaying the container sequences timed out")
+    if p.returncode in (-9, 137):
+        raise C.ToolError("the replay process was killed from outside (status %d: out of memory or operator), no verdict" % p.returncode)
     if p.returncode != 0:
         V.violation("replay-crash", {"property": PROP, "detail": "the replay process died with status %d" % p.returncode}, {"observed": "abort"})
     bad = C.read_ndjson(sout) if os.path.exists(sout) else []
@@ -46,10 +56,10 @@ def run(tier):
                                    "sequence": b["seq"], "mismatch": b["mismatch"]}, {"observed": "container-mismatch", "op": b["mismatch"].get("op", "")})
     big = max((max((len(e) for e in s["edges"]), default=0) for s in sims), default=0)
     cov = {"states": stats["distinct"] + stats2.get("distinct", 0), "transitions": stats["states"] + stats2.get("states", 0),
-           "traces_validated_against_impl": len(allseqs),
-           "samples": [seqs[len(seqs) // 2]["hist"]] if seqs else [],
-           "evaluations": len(allseqs), "distinct_nontrivial": len(allseqs), "rule": RULE,
-           "bfs": {"sequences": len(seqs), "distinct_states": stats["distinct"], "depth": stats["depth"], "exhaustive": True},
+           "traces_validated_against_impl": nall,
+           "samples": [sample_seq.get("hist")] if sample_seq else [],
+           "evaluations": nall, "distinct_nontrivial": nall, "rule": RULE,
+           "bfs": {"sequences": nseqs, "distinct_states": stats["distinct"], "depth": stats["depth"], "exhaustive": True},
            "simulation": {"sequences": len(sims), "length": 200, "max_edges_on_one_node": big},
            "operations_replayed": int((p.stdout or "0 0 0 0").split()[2]) if p.stdout else 0, "exhaustive": True}
     return V.finish("model_checking", cov, ["the nested variable set borrows the outer one immutably (Rust), so sequences first fill the outer set, then the nested one",
